@@ -368,6 +368,24 @@ def designed(rng, t, base, tier):
     t.write_text(r + "/a/b/h.hex", "c0ffee")
     t.write_text(r + "/h.hex", "00")
     out.append((top, r + "/main.etk", "relative", None))
+    # blank and comment-only files (nothing to paste / an empty scope) followed by directives whose paths are
+    # relative to the file that holds them, decoys of the same name next to the blank file
+    for kind in ("import", "include"):
+        for blank in ("", "\n", "   \n\t\n", "# nothing here\n"):
+            top, r = case("blank")
+            t.write_src(r + "/main.etk", [("op", "push1", ("num", 1)), ("include", "lib/a.etk"), ("label", "end"), jd, ("op", "push1", ("lbl", "end"))])
+            t.write_src(r + "/lib/a.etk", [("op", "pc", None), (kind, "sub/blank.etk"), ("include_hex", "blob.hex"), ("import", "x.etk"), ("op", "pc", None)])
+            t.write_text(r + "/lib/sub/blank.etk", blank, parses_as=[])
+            t.write_text(r + "/lib/blob.hex", "aabb")
+            t.write_text(r + "/lib/sub/blob.hex", "ccddeeff")
+            t.write_src(r + "/lib/x.etk", [("op", "push1", ("num", 2))])
+            t.write_src(r + "/lib/sub/x.etk", [("op", "push1", ("num", 3))])
+            out.append((top, r + "/main.etk", "blank-file", None))
+            top, r = case("blank")
+            t.write_src(r + "/main.etk", [(kind, "sub/blank.etk"), ("include", "b.etk"), ("label", "end"), jd, ("op", "push1", ("lbl", "end"))])
+            t.write_text(r + "/sub/blank.etk", blank, parses_as=[])
+            t.write_src(r + "/b.etk", [("label", "a"), jd, ("op", "push1", ("lbl", "a"))])
+            out.append((top, r + "/main.etk", "blank-file", None))
     # blob lengths on the width boundaries, a label behind and an auto-sized push in front
     sizes = [0, 1, 254, 255, 256, 65535] + ([65536, 70000] if tier == "thorough" else [70000])
     for L in sizes:
